@@ -60,6 +60,14 @@ binding:   (a) every CASE line of TLC (document P, Dump(P), Parse(Dump(P))) is c
                alone, two generators (this document / the previous case's document) are advanced
                alternately, and the objects of the previous case (and of the previous recorded
                document) are kept alive and re-verified after the current one has been handled.
+               Failing calls (notes/SIZE_STRESS.md part 5; configuration calls_faults of Deb822ReaderCalls: two objects, one
+               generator, ParseFault / ListFault): Deb822(x) / Cls(x) / list(Cls.iter_paragraphs(x)) with a FAULTING TWIN x of the
+               document -- a generator or iterator of str / bytes lines (with / without newlines), a file-like object (text / binary),
+               a BufferedReader / TextIOWrapper over a raw stream with short reads -- whose request for the first / a middle / the
+               last line (for Deb822(x): of the first paragraph) raises OSError / ValueError / KeyError / UnicodeDecodeError / a
+               private exception class.  Verdict for the call itself: exactly the caller's exception object comes out; then the
+               history goes on (FaultsChangeNothing): every object handed out before, every generator in progress and every later
+               parse in the same process behave as the model says.  Negative control FaultSharesStorage.
            (d) size stress (notes/SIZE_STRESS.md) in both legs.  The specification is class-abstract, so
                TLC's expected parse does not depend on any length; the CONCRETIZATION gets a size plan
                (class Sizes) that hands out boundary lengths round-robin, whatever the seed: names of
@@ -81,6 +89,18 @@ binding:   (a) every CASE line of TLC (document P, Dump(P), Parse(Dump(P))) is c
                be the same text.  Spec-level negative control: a render memo invalidated only by set / del makes TLC
                report RendersCurrent.  Recorded histories over 6 names are validated by TraceDeb822ReaderEdits
                (hand-written corrupted control histories must be rejected).
+               REFUSED calls and calls failing inside a caller-supplied object are ordinary steps of these histories, in both legs
+               (hardening round 6): refused_set = item assignment / setdefault / update / merge_fields with a value Deb822 documents as
+               refused (ends in a newline; has an empty line; has a continuation line without leading white space), to a name the
+               paragraph has (any case spelling) or does NOT have (yet / any more); absent = del / pop / pop(default) of a name it does
+               not have, popitem() of an empty paragraph; sort_key_fault = sort_fields(key=f) with f raising for the first / a middle /
+               the last name, sort_key_incomparable = f returning keys that cannot be compared; dump_fault = dump(fd) binary / text
+               with the k-th write() of fd raising.  The EDGE carries the outcome ("ValueError" / "KeyError" / "TypeError" / "caller" =
+               the caller's own exception object / "ok" where the call does not fail: setdefault of a present name, pop with default,
+               key function never called on an empty paragraph ...) and the model's step is UNCHANGED on the paragraph (error
+               atomicity: RendersCurrent includes Complete = every listed field has a value), so after the failed call every
+               rendering must still re-parse to the fields it had, and the history continues.  Spec-level negative control:
+               RefusedLeaksKey (the name is registered before the value is validated) -> RendersCurrent.
            (f) transport (spec/Deb822Stream.tla; notes/SIZE_STRESS.md part 4), both legs, every run: the plain dump of EVERY
                case and one more variant of every other case (comments, leading / trailing / separator lines, armor), and every
                5th recorded document, are also read through file objects with one text lengthened so that the end of a line --
@@ -105,7 +125,11 @@ unspecified / diagnostic (executed, recorded as spec_drift, never a violation): 
            stray PGP lines (LTS walks); strict={'whitespace-separates-paragraphs': False};
            Dsc/Changes given a non-str/bytes input whose leading comment line(s) are directly
            followed by a blank line (the code loses the paragraph there: observation for the
-           maintainers, see GPGMV_ZONE).
+           maintainers, see GPGMV_ZONE); a tree that CARRIES OUT an assignment the specification refuses (value
+           validation itself is C08): the rest of that history is outside the domain (drift, no verdict);
+           update() with several pairs of which a later one is refused, and a generator in progress whose line
+           source starts to fail (how many paragraphs come out before the exception depends on read-ahead):
+           not exercised, the statement does not say.
 API surface (notes/API_SURFACE.md): every public way of parsing / dumping a paragraph and where it is exercised
   ("replay" = CASE replay incl. the rotating surface probes of surface_jobs(), "trace" = recorded documents validated by
    TLC, "calls" = behaviours of Deb822ReaderCalls; all of them run in the QUICK tier, the expectation is always the
@@ -163,8 +187,19 @@ API surface (notes/API_SURFACE.md): every public way of parsing / dumping a para
   Dsc/Changes/... get_gpg_info(), GpgInfo                                   -> out of domain (signature verification, needs gpgv)
   apt_pkg.TagFile path (use_apt_pkg=True with python-apt), TagSectionWrapper-> out of domain (apt_pkg absent in this image)
   validate_input / __setitem__ (building the paragraphs that are dumped)    -> replay (build_and_dump); value validation itself is C08
-  isSingleLine / isMultiLine / mergeFields (deprecated aliases), order_*,   -> not ways of parsing or dumping (C09 / out of scope)
-      sort_fields, merge_fields
+  REFUSED d[k] = v / d.setdefault(k, v) / d.update({k: v}) / d.update([(k,   -> edit histories + recorded histories (refused_set): ValueError comes out, the
+      v)]) / d.merge_fields(k, {k: v}) with v ending in a newline, holding     paragraph is what it was (len, order, every rendering, re-parse), for names the
+      an empty line or an unindented continuation line                          paragraph has (other case spellings too) and names it does not have
+  del d[k] / d.pop(k) / d.pop(k, default) with k absent, popitem() on {}     -> edit histories + recorded histories (absent, popitem_empty)
+  sort_fields(key=f) with f raising at the first / middle / last name or     -> edit histories + recorded histories (sort_key_fault, sort_key_incomparable): the
+      returning incomparable keys                                               caller's exception object / TypeError comes out, order and fields unchanged
+  dump(fd) / dump(fd, text_mode=True) with fd.write() raising at the first / -> edit histories + recorded histories (dump_fault): the caller's exception object
+      middle / last call                                                        comes out, the paragraph and all later renderings unchanged (what fd got: not judged)
+  Deb822(x) / Cls(x) / list(Cls.iter_paragraphs(x)) with x raising when a     -> calls (configuration calls_faults): eight faulting forms x five exception classes x
+      line is requested (generator, iterator, file-like, buffered / text        first / middle / last line; later calls, live objects and generators unaffected
+      layer over a failing raw stream)
+  isSingleLine / isMultiLine, order_* with an absent name                   -> not ways of parsing or dumping (C09 / out of scope); order_*, sort_fields,
+                                                                               merge_fields / mergeFields on present names: edit histories (e)
 domain:    names Policy-valid ([!-9;-~]+, not starting with '#' or '-', distinct in a paragraph
            ignoring case); first-line data without leading/trailing (Unicode) white space, padding
            is ASCII blank/tab; continuation lines start with blank/tab and contain a non-white
@@ -190,7 +225,7 @@ from lts import LTS, skey
 MANIFEST = dict(
     technique="TLA+ specs Deb822Reader + Deb822Stream + Deb822ReaderCalls (line-class automaton of _skip_useless_lines + split_gpg_and_payload + _internal_parser + iter_paragraphs, inverse operator Dump, clearsign Armor) model-checked by TLC (closed automaton; all bounded documents); every TLC case replayed as real dump()+re-parse in six input forms x comments x armor; prefix-closed executions of the real reader validated by TLC (TraceDeb822Reader)",
     text="The reader is specified as one automaton over eleven line classes with one named branch per branch of the code's loops. TLC checks on the closed automaton that the branch guards are total and exclusive and that EOFError coincides with an empty paragraph, and on every document of up to 3 paragraphs x 3 fields (at most 3 fields in all in the quick tier, 4-5 in the thorough tier, plus all 3x3 documents over two value shapes) x values with empty/non-empty first line and 0-2 continuation lines that Parse(Dump(P)) = P, also with a comment line at any position or before every line, with leading/trailing/multiple separator lines, and (single paragraphs) inside clearsign armor of several shapes. Each enumerated document carries TLC's expected parse; it is concretized (odd but Policy-valid names, values starting with ':' '#' '-', padded first lines, colons / PGP look-alikes / trailing blanks in continuation lines, UTF-8 whose bytes contain 0x85/0xa0), built as Deb822 objects, dumped and read back through iter_paragraphs / Deb822 / Dsc / Changes in six input forms. In the other direction random documents of up to 8 paragraphs are parsed prefix by prefix by the real code and TLC must explain every intermediate result with the automaton.",
-    note="Small-scope for the exhaustive part; payload text is sampled. API surface: every public way of parsing and dumping (positional / keyword arguments, nine classes and their iter_paragraphs, twenty-six input forms (eighteen of them kinds of file objects), fields=, strict=, encoding=, every dump variant, copy / deepcopy / pickle, gpg_stripped_paragraph) is exercised on a rotating sample with the same expectations (table in the module docstring); the strictness flag is judged with TLC's parse under either value. Character stress: non-NFC twins, case hazards, invisible characters, line-final characters over every UTF-8 continuation byte. Whitespace-only lines in other positions, junk lines and stray PGP lines are modelled and replayed but only diagnostic. Unspecified (drift, reported to the maintainers): fields= in another spelling / leaving a paragraph empty, text input with a non-UTF-8 encoding, pickle protocols 0-1, copy.copy sharing storage. Observation (unspecified for C02, recorded as drift): Dsc/Changes given a list or file whose leading comment is followed by a blank line lose the paragraph. Trusted: TLC, the concretizer (line class known by construction), the projection items()/value.split('\\n')/dump(). Size stress in both legs: names up to 300 characters, lines around 4 KiB / 8 KiB / 64 KiB, documents of 1000 paragraphs, paragraphs of 100 fields, values of 100+ continuation lines (expected results from TLC's BigInvariant configuration / trace validation with sparse observation). Independence of calls (module Deb822ReaderCalls: memo / shared-object negative controls, LTS replayed; repeated parses with caller-side mutation, interleaved generators, kept-alive objects). Renderings of one live paragraph between arbitrary public mutators (module Deb822ReaderEdits: LTS replayed with every dump variant after every step, recorded histories validated, render-memo negative control). Transport (module Deb822Stream: the lines that reach the reader do not depend on how a file object cuts the byte stream into blocks; negative controls for a block reader that leaves an empty line behind, loses the unterminated last line, or splits blocks on their own): every case and every 5th recorded document is also read through fourteen more kinds of file objects (unbuffered / tiny-buffer files, short-read raw streams, gzip / bz2 / lzma wrappers, spooled files, text layers) with a line end steered to m*2^k-1 / m*2^k / m*2^k+1 (k = 9..17, in bytes and in characters) or a multi-byte character across m*2^k. Eleven spec-level negative controls and corrupted control traces must fail.",
+    note="Small-scope for the exhaustive part; payload text is sampled. API surface: every public way of parsing and dumping (positional / keyword arguments, nine classes and their iter_paragraphs, twenty-six input forms (eighteen of them kinds of file objects), fields=, strict=, encoding=, every dump variant, copy / deepcopy / pickle, gpg_stripped_paragraph) is exercised on a rotating sample with the same expectations (table in the module docstring); the strictness flag is judged with TLC's parse under either value. Character stress: non-NFC twins, case hazards, invisible characters, line-final characters over every UTF-8 continuation byte. Whitespace-only lines in other positions, junk lines and stray PGP lines are modelled and replayed but only diagnostic. Unspecified (drift, reported to the maintainers): fields= in another spelling / leaving a paragraph empty, text input with a non-UTF-8 encoding, pickle protocols 0-1, copy.copy sharing storage. Observation (unspecified for C02, recorded as drift): Dsc/Changes given a list or file whose leading comment is followed by a blank line lose the paragraph. Trusted: TLC, the concretizer (line class known by construction), the projection items()/value.split('\\n')/dump(). Size stress in both legs: names up to 300 characters, lines around 4 KiB / 8 KiB / 64 KiB, documents of 1000 paragraphs, paragraphs of 100 fields, values of 100+ continuation lines (expected results from TLC's BigInvariant configuration / trace validation with sparse observation). Independence of calls (module Deb822ReaderCalls: memo / shared-object negative controls, LTS replayed; repeated parses with caller-side mutation, interleaved generators, kept-alive objects). Renderings of one live paragraph between arbitrary public mutators (module Deb822ReaderEdits: LTS replayed with every dump variant after every step, recorded histories validated, render-memo negative control). Transport (module Deb822Stream: the lines that reach the reader do not depend on how a file object cuts the byte stream into blocks; negative controls for a block reader that leaves an empty line behind, loses the unterminated last line, or splits blocks on their own): every case and every 5th recorded document is also read through fourteen more kinds of file objects (unbuffered / tiny-buffer files, short-read raw streams, gzip / bz2 / lzma wrappers, spooled files, text layers) with a line end steered to m*2^k-1 / m*2^k / m*2^k+1 (k = 9..17, in bytes and in characters) or a multi-byte character across m*2^k. Refused calls and calls failing inside a caller-supplied object (hardening round 6): refused assignments (item / setdefault / update / merge_fields with a value ending in a newline, holding an empty line or an unindented continuation line) to present and absent names, del / pop of absent names, sort_fields(key=f) with a raising / incomparable f, dump(fd) with a failing fd are ordinary steps of the edit histories in both legs (model: outcome on the edge, paragraph UNCHANGED, every listed field has a value); Deb822(x) / iter_paragraphs(x) with a line source that raises at the first / a middle / the last line are ordinary steps of the call behaviours (model: nothing handed out, nothing changed). Thirteen spec-level negative controls and corrupted control traces must fail.",
     design="5 (C02)")
 
 FORMS = ("str", "bytes", "lines_nl", "lines", "sio", "bio")
@@ -1815,6 +1850,86 @@ CALL_SCRIPTS = [
     [("parse", [1]), ("open", [1]), ("next", [1]), ("mutate", [1, "heavy"]), ("mutate", [2, "heavy"]), ("next", [1])],
     [("open", [2]), ("open", [1]), ("next", [2]), ("next", [1]), ("next", [2]), ("next", [1])],
 ]
+# the same calls with a faulting twin of the argument (the caller's object raises when a line is requested), then carry on
+# (configuration calls_faults: two objects, one generator)
+CALL_FAULT_SCRIPTS = [
+    [("open", [1]), ("next", [1]), ("parse_fault", [1, "middle"]), ("next", [1]), ("list_fault", [1, "last"]), ("next", [1]),
+     ("parse_fault", [2, "first"])],
+    [("parse", [2]), ("list_fault", [2, "first"]), ("parse_fault", [2, "last"]), ("mutate", [1, "heavy"]), ("parse", [2]), ("open", [2]),
+     ("list_fault", [1, "middle"]), ("parse_fault", [1, "first"])],
+    [("list_fault", [1, "first"]), ("open", [1]), ("parse_fault", [1, "last"]), ("next", [1]), ("list_fault", [2, "last"]),
+     ("mutate", [1, "heavy"]), ("parse_fault", [1, "middle"]), ("next", [1]), ("list_fault", [1, "middle"]), ("next", [1])],
+    [("parse_fault", [1, "middle"]), ("parse", [1]), ("list_fault", [1, "middle"]), ("open", [1]), ("next", [1]), ("parse_fault", [2, "middle"])],
+]
+FAULT_FORMS = ("fgen", "fiter", "fiter_b", "ffile_t", "ffile_b", "fraw_b", "fraw_t", "fgen_nonl")
+
+
+class FaultyLines:
+    """a caller's line source (iterator / file-like object): the request for line `at` raises the caller's exception"""
+
+    def __init__(self, lines, at, exc):
+        self.lines, self.at, self.exc, self.i, self.closed = lines, at, exc, 0, False
+
+    def __iter__(self):
+        return self
+
+    def __next__(self):
+        if self.i == self.at:
+            self.i += 1
+            raise self.exc
+        if self.i >= len(self.lines):
+            raise StopIteration
+        self.i += 1
+        return self.lines[self.i - 1]
+
+    def readline(self, *_):
+        try:
+            return next(self)
+        except StopIteration:
+            return self.lines[0][:0]
+
+    def readlines(self, *_):
+        return list(self)
+
+    def read(self, *_):
+        return self.lines[0][:0].join(self)
+
+    def close(self):
+        self.closed = True
+
+
+def faulty_input(form, texts, at, exc):
+    """a faulting twin of make_input(...): the same document, but the caller's object fails when line `at` is requested"""
+    import io as _io
+    if form in ("fgen", "fgen_nonl"):
+        def g():
+            for i, t in enumerate(texts):
+                if i == at:
+                    raise exc
+                yield t + ("\n" if form == "fgen" else "")
+        return g()
+    if form in ("fiter", "ffile_t"):
+        return FaultyLines([t + "\n" for t in texts], at, exc)
+    if form in ("fiter_b", "ffile_b"):
+        return FaultyLines([(t + "\n").encode("utf-8") for t in texts], at, exc)
+    data = "".join(t + "\n" for t in texts).encode("utf-8")
+    off = len("".join(t + "\n" for t in texts[:at]).encode("utf-8"))
+
+    class Raw(_io.RawIOBase):
+        pos = 0
+
+        def readable(self):
+            return True
+
+        def readinto(self, b):
+            if self.pos >= off:
+                raise exc
+            n = min(len(b), off - self.pos, 5)
+            b[:n] = data[self.pos:self.pos + n]
+            self.pos += n
+            return n
+    br = _io.BufferedReader(Raw(), buffer_size=16)
+    return br if form == "fraw_b" else _io.TextIOWrapper(br, encoding="utf-8", newline="\n")
 
 
 def follow(g, script):
@@ -1849,6 +1964,9 @@ def calls_steps(rng, path, conc):
         steps.append({"op": e["op"], "args": e["args"], "res": e["res"], "form": form, "expect": expect, "cls": cls,
                       "style": rng.choice(("pos", "kw", "kwseq")), "strict": rng.choice((None, True, False)),
                       "use_apt_pkg": rng.random() < 0.5})
+        if e["op"] in ("parse_fault", "list_fault"):
+            steps[-1].update(form=rng.choice(FAULT_FORMS), cls=rng.choice(CLASSES if e["op"] == "parse_fault" else PLAIN_CLASSES),
+                             exc=rng.choice(FAULT_EXC))
     return steps
 
 
@@ -1894,6 +2012,35 @@ def _exec_calls(steps, texts, drifts, objs, iters, inputs):
                     new = "STOP"
             elif op == "mutate":
                 mutate(objs[args[0] - 1], args[1])
+            elif op in ("parse_fault", "list_fault"):
+                import warnings
+                lines = texts[args[0] - 1]
+                n = (lines.index("") if "" in lines else len(lines)) if op == "parse_fault" else len(lines)
+                at = fault_index(args[1], n)
+                exc = make_fault(st["exc"])
+                x = faulty_input(st["form"], lines, at, exc)
+                inputs.append(x)
+                cls = _cls(st.get("cls", "Deb822"))
+                strict = None if st.get("strict") is None else {WS_KEY: st["strict"]}
+                style = st.get("style", "kw")
+                where += " (the caller's object raises %s when line %d of %d is requested)" % (st["exc"], at + 1, len(lines))
+                try:
+                    with warnings.catch_warnings():
+                        warnings.simplefilter("ignore")
+                        if op == "parse_fault":
+                            got = (cls(x, None, None, "utf-8", strict) if style == "pos" else
+                                   cls(sequence=x, strict=strict) if style == "kwseq" else cls(x, strict=strict))
+                        else:
+                            ua = st.get("use_apt_pkg", False)
+                            got = list(cls.iter_paragraphs(x, None, ua, False, "utf-8", strict) if style == "pos" else
+                                       cls.iter_paragraphs(sequence=x, use_apt_pkg=ua, strict=strict) if style == "kwseq" else
+                                       cls.iter_paragraphs(x, use_apt_pkg=ua, strict=strict))
+                except Exception as e:
+                    if e is not exc:
+                        return "%s raised %s: %s -- specification: the caller's exception comes out" % (where, type(e).__name__, e)
+                else:
+                    return "%s returned %r -- specification: the caller's exception comes out" % (
+                        where, items_of(got) if op == "parse_fault" else [items_of(o) for o in got])
         except Exception as e:
             return "%s raised %s: %s" % (where, type(e).__name__, e)
         if op in ("parse", "next"):
@@ -1927,7 +2074,16 @@ EDIT_SCRIPTS = [
     [("render", ["dump"]), ("pop", [1]), ("setdefault", [1, 2]), ("order_first", [1]), ("popitem", []), ("sort_fields_key", [])],
     [("render", ["str"]), ("merge_only_here", [2]), ("order_after", [2, 3]), ("clear", []), ("set", [3, 1]), ("set", [1, 2]),
      ("order_first", [1])],
+    # refused assignments and calls failing in a caller-supplied object are ordinary steps (error atomicity)
+    [("del", [2]), ("refused_set", [2, "nl_end", "set"]), ("render", ["dump"]), ("absent", [2, "pop_default"]), ("set", [2, 1]),
+     ("refused_set", [2, "no_indent", "update"]), ("pop", [3]), ("absent", [3, "pop"])],
+    [("pop", [1]), ("refused_set", [1, "blank_line", "setdefault"]), ("sort_key_fault", ["middle"]), ("dump_fault", ["last", "binary"]),
+     ("render", ["str"]), ("absent", [1, "del"]), ("refused_set", [3, "nl_end", "setdefault"])],
+    [("clear", []), ("popitem_empty", []), ("refused_set", [3, "no_indent", "merge"]), ("sort_key_fault", ["first"]),
+     ("dump_fault", ["first", "text"]), ("set", [3, 2]), ("sort_key_incomparable", []), ("refused_set", [1, "nl_end", "set"]),
+     ("set", [1, 1]), ("sort_key_incomparable", []), ("sort_key_fault", ["last"]), ("render", ["bytes"])],
 ]
+REFUSED_OPS = ("refused_set", "absent", "popitem_empty", "sort_key_fault", "sort_key_incomparable", "dump_fault")
 RENDER_KINDS = ("dump()", "str(d)", "bytes(d)", "dump(BytesIO)", "dump(BytesIO, 'utf-8')", "dump(StringIO, text_mode=True)",
                 "dump(fd=StringIO, encoding=None, text_mode=True)")
 
@@ -1975,12 +2131,151 @@ def check_renderings(p, want, n):
     return rs, None
 
 
+class CallerFault(Exception):
+    """private exception class of a caller-supplied object"""
+
+
+FAULT_EXC = ("OSError", "ValueError", "KeyError", "CallerFault", "UnicodeDecodeError")
+
+
+def make_fault(kind):
+    if kind == "UnicodeDecodeError":
+        return UnicodeDecodeError("utf-8", b"\xff", 0, 1, "caller's fault")
+    return {"OSError": OSError, "ValueError": ValueError, "KeyError": KeyError, "CallerFault": CallerFault,
+            }[kind]("caller's fault")
+
+
+def faulty_writer(text_mode, at=None, exc=None):
+    """a caller's file object for dump(fd) (a BytesIO / StringIO whose write() is overridden): the at-th write() raises
+    the caller's exception (at = None: it only counts the calls in .n)"""
+    base = io.StringIO if text_mode else io.BytesIO
+
+    class FaultyWriter(base):
+        n = 0
+
+        def write(self, data):
+            self.n += 1
+            if at is not None and self.n - 1 == at:
+                raise exc
+            return base.write(self, data)
+    return FaultyWriter()
+
+
+def fault_index(pos, n):
+    return {"first": 0, "middle": n // 2, "last": n - 1}[pos]
+
+
+def spell(name, how):
+    """another spelling of a field name (the mapping ignores ASCII case)"""
+    return {0: name, 1: name.upper(), 2: name.lower(), 3: name.swapcase()}[how % 4]
+
+
+def bad_value(rng, kind, canonical=False):
+    """a value Deb822 documents as refused: it ends in a newline / has an empty line / has a continuation line that
+    does not start with white space (everything else about it is in the domain)"""
+    first = rng.choice([gen_data(rng, canonical), ""])
+    conts = [gen_cont(rng, canonical) for _ in range(rng.randint(0 if first else 1, 2))]
+    if kind == "nl_end":
+        return rng.choice(["\n".join([first] + conts) + "\n", gen_data(rng, canonical) + "\n", "\n" if rng.random() < 0.2 else "x\n"])
+    if kind == "blank_line":
+        conts = conts or [gen_cont(rng, canonical)]
+        at = rng.randint(0, len(conts) - 1)
+        return "\n".join([first] + conts[:at] + [""] + conts[at:])
+    if kind == "no_indent":
+        x = rng.choice([gen_data(rng, canonical), "Key: value", "# comment", BEGIN_SIG, ".", "x\ty", "b"])
+        at = rng.randint(0, len(conts))
+        return "\n".join([first] + conts[:at] + [x] + conts[at:])
+    raise core.MachineryError("unknown kind of refused value %r" % kind)
+
+
+def refused_conc(rng, st, canonical=False):
+    """concretization of a refused / failing step (kept in the case, so that a replay performs the same call)"""
+    op, a = st["op"], st["args"]
+    c = {"spell": rng.randrange(4), "exc": rng.choice(FAULT_EXC[:4])}
+    if op == "refused_set":
+        c["bad"] = bad_value(rng, a[1], canonical)
+        c["with_valid"] = rng.random() < 0.3         # update(): a valid pair for the same name after the refused one is never reached
+    return c
+
+
+def outcome_of(e, fault):
+    """class of outcome of a call (the model's res): the caller's own exception object, or the documented class"""
+    if fault.get("exc") is e:
+        return "caller"
+    for cls in (KeyError, ValueError, TypeError):
+        if isinstance(e, cls):
+            return cls.__name__
+    return "other:" + type(e).__name__
+
+
 def apply_edit(p, st, names, values, rank):
-    """one public mutator (the model's op) on the real paragraph"""
+    """one public call (the model's op) on the real paragraph; returns (outcome, exception): 'ok', 'caller' (the
+    exception object raised by the caller-supplied argument came out), or the exception class"""
+    fault = {}
+    try:
+        _apply_edit(p, st, names, values, rank, fault)
+    except core.MachineryError:
+        raise
+    except Exception as e:
+        return outcome_of(e, fault), e
+    return "ok", None
+
+
+def _apply_edit(p, st, names, values, rank, fault):
     import warnings
     op, a = st["op"], st["args"]
     style = st.get("style", 0)
-    if op == "set":
+    c = st.get("conc") or {}
+    if op == "refused_set":
+        name, bad, how = spell(names[a[0]], c["spell"]), c["bad"], a[2]
+        if how == "set":
+            p[name] = bad
+        elif how == "setdefault":
+            p.setdefault(name, bad)
+        elif how == "update":
+            pairs = [(name, bad)] + ([(name, values[(a[0], 1)])] if c.get("with_valid") else [])
+            p.update(dict(pairs[:1]) if style % 2 == 0 else pairs)
+        elif how == "merge":
+            p.merge_fields(name, {name: bad})
+        else:
+            raise core.MachineryError("unknown refused_set variant %r" % how)
+    elif op == "absent":
+        name = spell(names[a[0]], c["spell"])
+        if a[1] == "del":
+            del p[name]
+        elif a[1] == "pop":
+            p.pop(name)
+        else:
+            marker = object()
+            if p.pop(name, marker) is not marker:
+                raise core.MachineryError("pop(absent name, default) did not return the default")
+    elif op == "popitem_empty":
+        p.popitem()
+    elif op == "sort_key_fault":
+        fault["exc"] = make_fault(c["exc"])
+        at, seen = fault_index(a[0], len(p)), []
+
+        def key(x):
+            seen.append(x)
+            if len(seen) - 1 == at:
+                raise fault["exc"]
+            return rank[x.lower()]
+        p.sort_fields(key=key) if style % 2 == 0 else p.sort_fields(key)
+    elif op == "sort_key_incomparable":
+        odd = sorted(rank)[style % len(rank)] if len(p) < 2 else sorted(x.lower() for x in p)[style % len(p)]
+        p.sort_fields(key=lambda x: "text" if x.lower() == odd else rank[x.lower()])
+    elif op == "dump_fault":
+        text_mode = a[1] == "text"
+        cnt = faulty_writer(text_mode)
+        p.dump(cnt, text_mode=text_mode)            # how many write() calls a dump of this paragraph makes
+        if cnt.n:
+            fault["exc"] = make_fault(c["exc"])
+            fd = faulty_writer(text_mode, fault_index(a[0], cnt.n), fault["exc"])
+            if text_mode:
+                p.dump(fd, text_mode=True) if style % 2 == 0 else p.dump(fd, None, True)
+            else:
+                p.dump(fd) if style % 2 == 0 else p.dump(fd=fd, encoding="utf-8")
+    elif op == "set":
         p[names[a[0]]] = values[(a[0], a[1])]
     elif op == "del":
         del p[names[a[0]]]
@@ -2044,7 +2339,7 @@ def model_fields(state, names, values):
     return [(names[f["k"]], values[(f["k"], 1 if len(f["v"]) == 1 else 2)]) for f in state]
 
 
-def exec_edits(case):
+def exec_edits(case, drifts=None):
     """case: names {rank: name}, values {(rank, alt): text} as [[rank, alt, text]], init, steps [{op, args, style, expect}],
     entry (parse variant).  Returns None or a message"""
     names = {int(k): v for k, v in case["names"].items()}
@@ -2065,24 +2360,37 @@ def exec_edits(case):
     done = []
     for n, st in enumerate(case["steps"]):
         done.append("%s%s" % (st["op"], tuple(st["args"])))
-        try:
-            apply_edit(p, st, names, values, rank)
-        except core.MachineryError:
-            raise
-        except Exception as e:
-            return "after %s: %s raised %s: %s" % (" ; ".join(done[:-1]) or "parsing", done[-1], type(e).__name__, e)
+        out, exc = apply_edit(p, st, names, values, rank)
+        res = st.get("res", "ok")
+        if out != res:
+            call = done[-1] + ((" [value %r]" % st["conc"]["bad"][:200]) if st["op"] == "refused_set" else "")
+            if st["op"] == "refused_set" and out == "ok":
+                # the tree stores a value the specification refuses: what follows is outside the domain (value validation
+                # itself is C08) -- executed, no verdict
+                if drifts is not None:
+                    drifts.append("refused assignment carried out (unspecified from here on): %s" % call)
+                return None
+            return ("after %s: %s %s, specification: %s" % (
+                " ; ".join(done[:-1]) or "parsing", call,
+                "returned normally" if out == "ok" else "raised %s: %s" % (type(exc).__name__, exc),
+                {"ok": "the call succeeds", "caller": "the exception raised by the caller's own object comes out"}.get(res, "raises " + res)))
         want = [tuple(kv) for kv in st["expect"]]
         _, msg = check_renderings(p, want, n)
         if msg:
-            return "history %s on one paragraph (parsed by %s): %s" % (" ; ".join(done), vdesc(case["entry"]), msg)
+            return "history %s on one paragraph (parsed by %s): %s%s" % (
+                " ; ".join(done), vdesc(case["entry"]),
+                "(the last call ended with %s, the paragraph must be what it was) " % res if res != "ok" else "", msg)
     return None
 
 
 def edits_case(rng, path, n):
     names, values = edits_conc(rng, canonical=(n % 5 == 0))
     init_state = path[0]["from"] if path else []
-    steps = [{"op": e["op"], "args": e["args"], "style": rng.randrange(6),
+    steps = [{"op": e["op"], "args": e["args"], "style": rng.randrange(6), "res": e["res"],
               "expect": [list(kv) for kv in model_fields(e["to"], names, values)]} for e in path]
+    for st in steps:
+        if st["op"] in REFUSED_OPS:
+            st["conc"] = refused_conc(rng, st, canonical=(n % 5 == 0))
     cls = (PLAIN_CLASSES + ("Dsc", "Changes"))[n % (len(PLAIN_CLASSES) + 2)]
     form = ALL_FORMS[n % len(ALL_FORMS)] if cls in PLAIN_CLASSES else ("str", "bytes")[n % 2]
     entry = {"cls": cls, "via": ("ctor", "iter")[n % 2] if cls in PLAIN_CLASSES else "ctor", "style": ("pos", "kw", "kwseq")[n % 3],
@@ -2112,11 +2420,13 @@ def record_edits(rng, nkeys, nops):
         err = [{"k": 0, "v": ["parsing %r raised %s: %s" % (text, type(e).__name__, e)]}]
         return {"init": proj(init), "names": {str(k): v for k, v in names.items()},
                 "values": [[k, a, t] for (k, a), t in sorted(values.items())],
-                "events": [{"op": "render", "k": 1, "r": 1, "v": [""], "v2": [""], "obs": err, "rend": [], "same": False,
-                            "args": ["dump"], "style": 0}]}
+                "events": [{"op": "render", "k": 1, "r": 1, "v": [""], "v2": [""], "how": "", "res": "ok", "obs": err, "rend": [],
+                            "same": False, "args": ["dump"], "style": 0, "conc": None}], "carried_out": []}
     events = []
     ops = ["set", "set", "del", "pop", "popitem", "setdefault", "update", "order_first", "order_last", "order_before",
-           "order_after", "sort_fields", "sort_fields_key", "merge_from_other", "merge_only_here", "render", "render", "clear"]
+           "order_after", "sort_fields", "sort_fields_key", "merge_from_other", "merge_only_here", "render", "render", "clear",
+           "refused_set", "refused_set", "refused_set", "absent", "popitem_empty", "sort_key_fault", "sort_key_incomparable", "dump_fault"]
+    carried = []
     for n in range(nops):
         present = [rank[k.lower()] for k in p]
         absent = [k for k in names if k not in present]
@@ -2142,11 +2452,34 @@ def record_edits(rng, nkeys, nops):
             k = rng.choice(absent)
         if op == "update" and k == r:
             continue
+        how = ""
+        if op == "refused_set":
+            how = rng.choice(("set", "set", "setdefault", "update", "merge"))
+            if how == "merge" or (how == "setdefault" and rng.random() < 0.7) or rng.random() < 0.4:
+                if not absent:              # mostly names the paragraph does not have (yet / any more)
+                    continue
+                k = rng.choice(absent)
+        if op == "absent":
+            if not absent:
+                continue
+            k, how = rng.choice(absent), rng.choice(("del", "pop", "pop_default"))
+        if op == "popitem_empty" and present:
+            continue
+        pos = rng.choice(("first", "middle", "last"))
         st = {"op": op, "style": rng.randrange(6),
               "args": {"set": [k, a], "setdefault": [k, a], "merge_from_other": [k, a], "update": [k, a, r, b],
-                       "order_before": [k, r], "order_after": [k, r], "render": [rng.choice(("dump", "str", "bytes"))]}.get(op, [k])}
+                       "order_before": [k, r], "order_after": [k, r], "render": [rng.choice(("dump", "str", "bytes"))],
+                       "refused_set": [k, rng.choice(("nl_end", "blank_line", "no_indent")), how], "absent": [k, how],
+                       "popitem_empty": [], "sort_key_fault": [pos], "sort_key_incomparable": [],
+                       "dump_fault": [pos, rng.choice(("binary", "text"))]}.get(op, [k])}
+        if op in REFUSED_OPS:
+            st["conc"] = refused_conc(rng, st)
+        out, _ = apply_edit(p, st, names, values, rank)
+        if op == "refused_set" and out == "ok" and (how != "setdefault" or k in absent):
+            # the tree stores a value the harness built to be refused: the rest of the history is outside the domain
+            carried.append("%s%s value %r" % (op, tuple(st["args"]), st["conc"]["bad"][:200]))
+            break
         try:
-            apply_edit(p, st, names, values, rank)
             rs = renderings(p)
             rend = []
             for i, (_, t) in enumerate(rs):
@@ -2158,10 +2491,10 @@ def record_edits(rng, nkeys, nops):
             raise
         except Exception as e:
             obs, rend, same = [{"k": 0, "v": ["%s: %s" % (type(e).__name__, e)]}], [], False
-        events.append({"op": op, "k": k, "r": r, "v": split(values[(k, a)]), "v2": split(values[(r, b)]),
-                       "obs": obs, "rend": rend, "same": same, "args": st["args"], "style": st["style"]})
+        events.append({"op": op, "k": k, "r": r, "v": split(values[(k, a)]), "v2": split(values[(r, b)]), "how": how, "res": out,
+                       "obs": obs, "rend": rend, "same": same, "args": st["args"], "style": st["style"], "conc": st.get("conc")})
     return {"init": proj(init), "events": events, "names": {str(k): v for k, v in names.items()},
-            "values": [[k, a, t] for (k, a), t in sorted(values.items())]}
+            "values": [[k, a, t] for (k, a), t in sorted(values.items())], "carried_out": carried}
 
 
 def rerecord_edits(t):
@@ -2179,18 +2512,20 @@ def rerecord_edits(t):
         return dict(t, events=[dict(t["events"][0], obs=[{"k": 0, "v": ["%s: %s" % (type(ex).__name__, ex)]}], rend=[], same=False)])
     events = []
     for n, e in enumerate(t["events"]):
+        out, _ = apply_edit(p, {"op": e["op"], "args": e["args"], "style": e["style"], "conc": e.get("conc")}, names, values, rank)
+        if e["op"] == "refused_set" and out == "ok" and e["res"] != "ok":
+            break                           # the refused assignment is carried out now: outside the domain from here on
         try:
-            apply_edit(p, {"op": e["op"], "args": e["args"], "style": e["style"]}, names, values, rank)
             rs = renderings(p)
             rend = []
             for i, (_, x) in enumerate(rs):
                 back, _ = read_iter("Deb822", make_input(ALL_FORMS[(n + i) % len(ALL_FORMS)], x.split("\n")[:-1] if x else []))
                 rend.append([proj(y) for y in back] if not isinstance(back, tuple) else [[{"k": 0, "v": [back[1]]}]])
-            events.append(dict(e, obs=proj(items_of(p)), rend=rend, same=all(x == rs[0][1] for _, x in rs)))
+            events.append(dict(e, res=out, obs=proj(items_of(p)), rend=rend, same=all(x == rs[0][1] for _, x in rs)))
         except core.MachineryError:
             raise
         except Exception as ex:
-            events.append(dict(e, obs=[{"k": 0, "v": ["%s: %s" % (type(ex).__name__, ex)]}], rend=[], same=False))
+            events.append(dict(e, res=out, obs=[{"k": 0, "v": ["%s: %s" % (type(ex).__name__, ex)]}], rend=[], same=False))
     return dict(t, events=events)
 
 
@@ -2198,9 +2533,9 @@ def _ef(k, *v):
     return {"k": k, "v": list(v)}
 
 
-def _eev(op, k, r, obs, rend=None, same=True):
+def _eev(op, k, r, obs, rend=None, same=True, how="", res="ok"):
     return {"op": op, "k": k, "r": r, "v": ["x"], "v2": ["y"], "obs": obs, "rend": [[obs] if obs else []] * 3 if rend is None else rend,
-            "same": same}
+            "same": same, "how": how, "res": res}
 
 
 # hand-written control histories the specification must NOT explain (independent of the code under test)
@@ -2215,13 +2550,35 @@ EDIT_CONTROLS = [
     {"init": [_ef(2, "b"), _ef(1, "a")], "events": [_eev("sort_fields", 1, 1, [_ef(2, "b"), _ef(1, "a")])]},
     # a deleted field that is still rendered
     {"init": [_ef(1, "a"), _ef(2, "b")], "events": [_eev("del", 1, 1, [_ef(2, "b")], rend=[[[_ef(1, "a"), _ef(2, "b")]]])]},
+    # a refused assignment to a name the paragraph does not have that leaves the name behind (without / with a value)
+    {"init": [_ef(1, "a")], "events": [_eev("refused_set", 2, 1, [_ef(1, "a"), _ef(2)], rend=[], same=False, how="set", res="ValueError")]},
+    {"init": [_ef(1, "a")], "events": [_eev("refused_set", 2, 1, [_ef(1, "a"), _ef(2, "x")], how="update", res="ValueError")]},
+    # ... whose damage shows in the next, valid, call only
+    {"init": [_ef(1, "a")], "events": [_eev("refused_set", 2, 1, [_ef(1, "a")], how="setdefault", res="ValueError"),
+                                       _eev("render", 1, 1, [_ef(1, "a")], rend=[[[_ef(1, "a"), _ef(2, "x")]]])]},
+    # a refused assignment to an existing name that removes the field
+    {"init": [_ef(1, "a"), _ef(2, "b")], "events": [_eev("refused_set", 2, 1, [_ef(1, "a")], how="set", res="ValueError")]},
+    # a refused assignment that is reported with another outcome than the documented one; setdefault of a present name raising
+    {"init": [_ef(1, "a")], "events": [_eev("refused_set", 2, 1, [_ef(1, "a")], how="set", res="other:AttributeError")]},
+    {"init": [_ef(1, "a")], "events": [_eev("refused_set", 1, 1, [_ef(1, "a")], how="setdefault", res="ValueError")]},
+    # the caller's key function fails: the exception is swallowed / the order is changed / fields are lost
+    {"init": [_ef(2, "b"), _ef(1, "a")], "events": [_eev("sort_key_fault", 1, 1, [_ef(2, "b"), _ef(1, "a")], res="ok")]},
+    {"init": [_ef(2, "b"), _ef(1, "a")], "events": [_eev("sort_key_fault", 1, 1, [_ef(1, "a"), _ef(2, "b")], res="caller")]},
+    {"init": [_ef(2, "b"), _ef(1, "a")], "events": [_eev("sort_key_incomparable", 1, 1, [], res="TypeError")]},
+    # the caller's file object fails in dump(fd): another exception comes out / the paragraph is emptied
+    {"init": [_ef(1, "a")], "events": [_eev("dump_fault", 1, 1, [_ef(1, "a")], res="other:RuntimeError")]},
+    {"init": [_ef(1, "a")], "events": [_eev("dump_fault", 1, 1, [], res="caller")]},
+    # deleting an absent name succeeds silently / removes another field
+    {"init": [_ef(1, "a")], "events": [_eev("absent", 2, 1, [_ef(1, "a")], how="del", res="ok")]},
+    {"init": [_ef(1, "a")], "events": [_eev("absent", 2, 1, [], how="pop", res="KeyError")]},
 ]
 
 
 def validate_edits(ctx, traces, diag=False):
     """TLC (TraceDeb822ReaderEdits) on the recorded edit histories + controls; returns (rejected ids, progress, result)"""
     path = os.path.join(ctx.work, "edit-traces-%d.json" % (1 if diag else 0))
-    allt = [{"init": t["init"], "events": t["events"]} for t in traces] + ([] if diag else EDIT_CONTROLS)
+    keep = ("op", "k", "r", "v", "v2", "how", "res", "obs", "rend", "same")
+    allt = [{"init": t["init"], "events": [{k: e[k] for k in keep} for e in t["events"]]} for t in traces] + ([] if diag else EDIT_CONTROLS)
     with open(path, "w") as f:
         json.dump(allt, f)
     r = core.run_tlc("TraceDeb822ReaderEdits", "TraceDeb822ReaderEdits.cfg", ctx.work, workers=1,
@@ -2321,9 +2678,14 @@ def run(ctx):
     kinds = '{"heavy"}' if quick else '{"heavy", "del", "first"}'
     light.append(dict(name="calls", module="Deb822ReaderCalls", workers=3 if quick else 4, tags={"EDGE", "DOCS"},
                       cfg=cfg_text("MC_Deb822ReaderCalls.cfg", Kinds=kinds)))
+    light.append(dict(name="calls_faults", module="Deb822ReaderCalls", workers=1, tags={"EDGE", "DOCS"},
+                      cfg=cfg_text("MC_Deb822ReaderCalls.cfg", Kinds='{"heavy"}', MaxObjs="2", MaxIters="1",
+                                   FaultPos='{"first", "middle", "last"}')))
     light.append(dict(name="edits", module="Deb822ReaderEdits", workers=2, tags={"EDGE"}, cfg="MC_Deb822ReaderEdits.cfg"))
     light.append(dict(name="neg:RenderMemoClearedBySetDelOnly", module="Deb822ReaderEdits", expect="RendersCurrent", workers=1, tags=set(),
                       cfg=cfg_text("MC_Deb822ReaderEdits.cfg", UseMemo="TRUE", MemoClearedBy='{"set", "del"}', Emit="FALSE")))
+    light.append(dict(name="neg:RefusedLeaksKey=TRUE", module="Deb822ReaderEdits", expect="RendersCurrent", workers=1, tags=set(),
+                      cfg=cfg_text("MC_Deb822ReaderEdits.cfg", RefusedLeaksKey="TRUE", Emit="FALSE")))
     # the transport below the line-level reader (Deb822Stream): the lines delivered do not depend on the block cuts
     #  quick: documents of <= 2 fields, alternating line widths, block cuts of every size and phase + one short read;
     #  thorough: all width modes, and documents of <= 3 fields / two armor shapes under block cuts
@@ -2339,10 +2701,11 @@ def run(ctx):
         c = _re.sub(r"(?m)^INVARIANT .*\n", "", c) + "INVARIANT %s\n" % inv
         light.append(dict(name="neg:%s=TRUE" % const, module="Deb822Stream", expect=inv, workers=1, tags=set(), cfg=c))
     call_controls = [("SharedResults", "INVARIANT ReturnedFresh", "ReturnedFresh"),
-                     ("SharedIterObject", "PROPERTY NoSpontaneousChange", "NoSpontaneousChange")]
-    for const, prop, inv in (call_controls if not quick else [call_controls[ctx.seed % 2]]):
+                     ("SharedIterObject", "PROPERTY NoSpontaneousChange", "NoSpontaneousChange"),
+                     ("FaultSharesStorage", "PROPERTY FaultsChangeNothing", "FaultsChangeNothing")]
+    for const, prop, inv in (call_controls if not quick else [call_controls[ctx.seed % 3]]):
         import re as _re
-        c = cfg_text("MC_Deb822ReaderCalls.cfg", Kinds='{"heavy"}', Emit="FALSE", **{const: "TRUE"})
+        c = cfg_text("MC_Deb822ReaderCalls.cfg", Kinds='{"heavy"}', Emit="FALSE", FaultPos='{"first"}', **{const: "TRUE"})
         c = _re.sub(r"(?m)^(INVARIANT|PROPERTY) .*\n", "", c) + prop + "\n"
         light.append(dict(name="neg:%s=TRUE" % const, module="Deb822ReaderCalls", expect=inv, workers=1, tags=set(), cfg=c))
     timeout = 900 if quick else 3600
@@ -2494,9 +2857,26 @@ def run(ctx):
         paths += [pth] * nrep
     for _ in range(nwalks):
         paths.append(cg.walk(rng, cg.init, rng.randint(3, 11), weight=lambda x: 1 if x["op"] == "mutate" else 2))
+    # ... and of the configuration with failing calls (the caller's line source raises): scripted and random
+    fedges = res["calls_faults"].printed.get("EDGE", [])
+    fedges.sort(key=lambda e: (skey(e["from"]), e["op"], skey(e["args"])))
+    fdocs = (res["calls_faults"].printed.get("DOCS") or [None])[0]
+    if len(fedges) != res["calls_faults"].generated - 1 or fdocs != cdocs:
+        raise core.MachineryError("call-level model with failing calls: %d EDGE lines for %d generated states / other documents"
+                                  % (len(fedges), res["calls_faults"].generated))
+    fg = LTS(fedges, cinit)
+    nrep2, nwalks2 = (4, 60) if quick else (50, 2000)
+    for sc in CALL_FAULT_SCRIPTS:
+        pth = follow(fg, sc)
+        if len(pth) != len(sc):
+            raise core.MachineryError("call script %r cannot be followed in the emitted LTS" % (sc,))
+        paths += [pth] * nrep2
+    for _ in range(nwalks2):
+        # 12 failing calls are enabled in every state: about a third of the steps
+        paths.append(fg.walk(rng, fg.init, rng.randint(4, 12), weight=lambda x: 0.5 if x["op"].endswith("_fault") else 2))
     ncalls = 0
     cdrifts = []
-    cops = {}
+    cops, cfaults = {}, {}
     for n, pth in enumerate(paths):
         crng = random.Random("%s-calls-%d" % (ctx.seed, n))
         conc, texts = calls_conc(crng, cdocs, canonical=(n % 7 == 0))
@@ -2504,6 +2884,8 @@ def run(ctx):
         ncalls += len(steps)
         for st in steps:
             cops[st["op"]] = cops.get(st["op"], 0) + 1
+            if st["op"].endswith("_fault"):
+                cfaults["%s(%s) <%s> %s" % (st["op"], st["args"][1], st["form"], st["exc"])] = 1
         msg = exec_calls(steps, texts, cdrifts)
         ctx.case_seen(("calls", n), True)
         if msg:
@@ -2515,7 +2897,11 @@ def run(ctx):
     ctx.traces += len(paths)
     ctx.evaluations += ncalls
     ctx.extra["calls"] = {"lts_states": len(cg.states), "lts_edges": len(cg.edges), "behaviours_replayed": len(paths),
-                          "calls_executed": ncalls, "per_op": cops, "kinds": kinds}
+                          "lts_with_failing_calls": {"states": len(fg.states), "edges": len(fg.edges)},
+                          "calls_executed": ncalls, "per_op": cops, "kinds": kinds,
+                          "failing_caller_objects(call(position) <form> exception)": len(cfaults),
+                          "failing_forms": sorted({k.split("<")[1].split(">")[0] for k in cfaults}),
+                          "failing_exceptions": sorted({k.split()[-1] for k in cfaults})}
     ctx.sample("call behaviour: " + " ; ".join("%s%s" % (e["op"], tuple(e["args"])) for e in follow(cg, CALL_SCRIPTS[2])))
     # 2c. edit / render histories of one live paragraph (Deb822ReaderEdits): scripted and random behaviours
     eedges = res["edits"].printed.get("EDGE", [])
@@ -2533,15 +2919,21 @@ def run(ctx):
             raise core.MachineryError("edit script %r cannot be followed in the emitted LTS" % (sc,))
         epaths += [pth] * nrep
     for _ in range(nwalks):
-        epaths.append(eg.walk(rng, eg.init, rng.randint(3, 12), weight=lambda x: 1 if x["op"] in ("render", "clear") else 3))
-    eops = {}
+        # refused / failing calls are about a quarter of the steps (27-36 refused_set edges per state: weight 1)
+        epaths.append(eg.walk(rng, eg.init, rng.randint(3, 12),
+                              weight=lambda x: 1 if x["op"] in ("render", "clear", "refused_set", "absent") else 3))
+    eops, eres = {}, {}
     nsteps = 0
+    edrifts = []
     for n, pth in enumerate(epaths):
         ecase = edits_case(random.Random("%s-edits-%d" % (ctx.seed, n)), pth, n)
         for st in ecase["steps"]:
             eops[st["op"]] = eops.get(st["op"], 0) + 1
+            if st["op"] in REFUSED_OPS:
+                kk = "%s%s -> %s" % (st["op"], "(%s)" % st["args"][-1] if st["op"] in ("refused_set", "absent") else "", st["res"])
+                eres[kk] = eres.get(kk, 0) + 1
         nsteps += len(pth)
-        msg = exec_edits(ecase)
+        msg = exec_edits(ecase, edrifts)
         ctx.case_seen(("edits", n), True)
         if msg:
             ctx.violation(ecase, msg)
@@ -2551,7 +2943,19 @@ def run(ctx):
     ctx.evaluations += nsteps * len(RENDER_KINDS)
     ctx.extra["edits"] = {"lts_states": len(eg.states), "lts_edges": len(eg.edges), "behaviours_replayed": len(epaths),
                           "mutator_calls": nsteps, "renderings_checked": (nsteps + len(epaths)) * len(RENDER_KINDS),
-                          "per_op": dict(sorted(eops.items()))}
+                          "per_op": dict(sorted(eops.items())), "refused_or_failing_calls": dict(sorted(eres.items())),
+                          "refused_assignments_carried_out(unspecified)": len(edrifts)}
+    for d in edrifts[:3]:
+        ctx.drift(d)
+    if not ctx.violations and not edrifts:
+        # every class of refused / failing call, with both outcomes where the model has two, is part of every run
+        need = {"refused_set(set) -> ValueError", "refused_set(update) -> ValueError", "refused_set(merge) -> ValueError",
+                "refused_set(setdefault) -> ValueError", "refused_set(setdefault) -> ok", "absent(del) -> KeyError",
+                "absent(pop) -> KeyError", "absent(pop_default) -> ok", "popitem_empty -> KeyError", "sort_key_fault -> caller",
+                "sort_key_fault -> ok", "sort_key_incomparable -> TypeError", "sort_key_incomparable -> ok", "dump_fault -> caller",
+                "dump_fault -> ok"}
+        if need - set(eres):
+            raise core.MachineryError("edit histories without %s" % sorted(need - set(eres)))
     ctx.sample("edit history: " + " ; ".join("%s%s" % (e["op"], tuple(e["args"])) for e in follow(eg, EDIT_SCRIPTS[0])))
     tm["calls"] = round(time.time() - t_, 1)
     t_ = time.time()
@@ -2639,6 +3043,10 @@ def run(ctx):
         wmeta.append([ln["text"] for ln in lines])
     # recorded edit / render histories of one paragraph (6 names), validated by TraceDeb822ReaderEdits beside the reader traces
     etraces = [record_edits(random.Random("%s-edit-trace-%d" % (ctx.seed, i)), 6, 20 if quick else 40) for i in range(40 if quick else 1500)]
+    ecarried = [d for t in etraces for d in t["carried_out"]]
+    for d in ecarried[:3]:
+        ctx.drift("recorded edit history: refused assignment carried out (unspecified from there on): " + d)
+    etraces = [t for t in etraces if t["events"]]
     tm["record"] = round(time.time() - t_, 1)
     t_ = time.time()
     with ThreadPoolExecutor(max_workers=1) as ex:
@@ -2651,7 +3059,15 @@ def run(ctx):
     ctx.transitions += er.generated
     ctx.extra["negative_controls_rejected"] = ctx.extra.get("negative_controls_rejected", 0) + len(EDIT_CONTROLS)
     ctx.traces += len(etraces)
-    ctx.extra["edit_traces"] = {"recorded": len(etraces), "events": sum(len(t["events"]) for t in etraces), "rejected": len(erej)}
+    etres = {}
+    for t in etraces:
+        for e in t["events"]:
+            if e["op"] in REFUSED_OPS:
+                kk = "%s%s -> %s" % (e["op"], "(%s)" % e["how"] if e["how"] else "", e["res"])
+                etres[kk] = etres.get(kk, 0) + 1
+    ctx.extra["edit_traces"] = {"recorded": len(etraces), "events": sum(len(t["events"]) for t in etraces), "rejected": len(erej),
+                                "refused_or_failing_calls": dict(sorted(etres.items())),
+                                "refused_assignments_carried_out(unspecified)": len(ecarried)}
     if erej:
         _, eprog, _ = validate_edits(ctx, [etraces[i - 1] for i in erej[:10]], diag=True)
         for j, i in enumerate(erej[:5]):
@@ -2661,7 +3077,7 @@ def run(ctx):
             ctx.violation({"kind": "edit-trace", "trace": t, "first_unexplained_event": at + 1},
                           "recorded edit history of one paragraph not explained by Deb822ReaderEdits: after %s the event %s"
                           % (" ; ".join("%s%s" % (e["op"], tuple(e["args"])) for e in t["events"][:at]) or "parsing",
-                             repr({k: ev[k] for k in ("op", "args", "obs", "rend", "same")} if ev else None)[:1500]))
+                             repr({k: ev[k] for k in ("op", "args", "res", "conc", "obs", "rend", "same")} if ev else None)[:1500]))
     rejected = [i for i in rej_all if i <= len(traces)]
     wrej = [i - len(traces) for i in rej_all if i > len(traces)]
     ctx.extra["diagnostic_walks"] = {"documents": len(wtr), "rejected": len(wrej)}
@@ -2753,7 +3169,10 @@ def replay(ctx, case):
     if case["kind"] == "edits":
         return exec_edits(case)
     if case["kind"] == "edit-trace":
-        rej, prog, _ = validate_edits(ctx, [rerecord_edits(case["trace"])], diag=True)
+        again = rerecord_edits(case["trace"])
+        if not again["events"]:
+            return None
+        rej, prog, _ = validate_edits(ctx, [again], diag=True)
         return ("edit history still not explained by the specification at event %d" % (prog.get(1, 0) + 1)) if rej else None
     if case["kind"] == "trace":
         lines = case["lines"]
